@@ -68,7 +68,16 @@ def r13_1(ctx):
     trustCenterJoinHandler against _handle_tc_join_handler's positional parameters and incomingRouteErrorHandler
     (normalised status, node)."""
     repo = ctx.repo
+    handler = repo.func(f"{APP}:ControllerApplication.ezsp_callback_handler")
     for v in VERSIONS:
+        # the application dispatches on frame *names*: a name that a version's table does not carry never fires there
+        cmds_v = repo.get(f"bellows.ezsp.v{v}.commands", "COMMANDS")
+        gone = [n for n in ("incomingMessageHandler", "messageSentHandler", "trustCenterJoinHandler", "incomingRouteErrorHandler") if n not in cmds_v]
+        for n in gone:
+            ctx.violation(f"callback-name:{n}:v{v}", f"protocol version {v} has no frame named `{n}` although the application's callback dispatch waits for that "
+                          "name: such callbacks are silently ignored on this version", func=handler, file=f"bellows/ezsp/v{v}/commands.py")
+        if gone:
+            continue
         fl = rx_fields(ctx, v, "incomingMessageHandler", ROLES_INCOMING)
         f, paths = explore_callback(ctx, v, "incomingMessageHandler", [Sym(f"role:{r}") for _, r, _ in fl])
         ctx.fn(f)
@@ -140,7 +149,10 @@ def r13_2(ctx):
         fl = rx_fields(ctx, v, "incomingMessageHandler", ROLES_INCOMING)
         for m in members:
             vals = [m if r == "TYPE" else Sym(f"role:{r}") for _, r, _ in fl]
-            f, paths = explore_callback(ctx, v, "incomingMessageHandler", vals, inline=("_handle_frame",))
+            # trusted base: zigpy's device lookups raise KeyError for a sender zigpy does not know (yet)
+            f, paths = explore_callback(ctx, v, "incomingMessageHandler", vals, inline=("_handle_frame",),
+                                        models=[("self.get_device", Outcomes(OK(Sym("device")), RAISE("KeyError"))),
+                                                ("self.get_device_with_address", Outcomes(OK(Sym("device")), RAISE("KeyError")))])
             for p in paths:
                 ctx.paths += 1
                 pr = [e for e in p.events if e.kind == "call" and e.what == "self.packet_received"]
@@ -254,3 +266,77 @@ def r13_4(ctx):
                 dsts.append(d.kwargs.get("address") if d is not None else None)
             ctx.require(p.terminal == "return" and dsts == [Sym("own1"), Sym("own2")], f"own-address-current:v{v}",
                         f"v{v}: two unicasts around an own-address change are addressed to {dsts!r}; must be [own1, own2]", func=f, trace=p.trace(16))
+
+
+@rule("R13.5", ["C13", "C12"], "T-FUN", floor=2)
+def r13_5(ctx):
+    """The field order used to unpack a callback is the one of the protocol version of the EZSP object that is attached
+    *now*: on one application object, an incoming-message and a message-sent callback are handled under one version, the
+    EZSP object is replaced by one of a version across the v14 field-order boundary (reconnect after a firmware change;
+    connect() creates a new EZSP object), and the same callbacks are handled again - both times every field reaches the
+    handler parameter of its role.  A dispatch decision remembered from the first connection would mis-unpack (or drop)
+    every later callback."""
+    repo = ctx.repo
+    f = repo.func(f"{APP}:ControllerApplication.ezsp_callback_handler")
+    ctx.fn(f)
+    cls = app_cls(ctx)
+    lo = max(v for v in VERSIONS if v < 14) if any(v < 14 for v in VERSIONS) else None
+    hi = min(v for v in VERSIONS if v >= 14) if any(v >= 14 for v in VERSIONS) else None
+    if lo is None or hi is None:
+        raise AnalysisError("no pair of supported versions across the v14 field-order boundary")
+    stop = {"_handle_frame", "_handle_frame_sent", "_handle_tc_join_handler", "handle_route_error", "handle_route_record", "_handle_id_conflict", "connection_lost"}
+    hf_params = [a.arg for a in repo.func(f"{APP}:ControllerApplication._handle_frame").node.args.args][1:]
+    hs_params = [a.arg for a in repo.func(f"{APP}:ControllerApplication._handle_frame_sent").node.args.args][1:]
+    es_ok = repo.cls(NAMED, "EmberStatus").members()["SUCCESS"]
+    for first, second in ((lo, hi), (hi, lo)):
+        px = PX(repo, inline=same_class(stop=stop))
+        px.inline.root = f
+
+        def vals(v, name, roles):
+            out = []
+            for _, r, ty in rx_fields(ctx, v, name, roles):
+                if r == "STATUS" and getattr(ty, "name", "") == "EmberStatus":
+                    out.append(es_ok)  # legacy status value: normalised before it is handed on
+                else:
+                    out.append(Sym(f"role:{r}"))
+            return out
+
+        def entry():
+            me = self_obj(cls, {"_ezsp": Obj(TypeRef("EZSP"), {"ezsp_version": first}, tag="self._ezsp")})
+            px.top_frame = None
+            for v in (first, second):
+                me.fields["_ezsp"] = Obj(TypeRef("EZSP"), {"ezsp_version": v}, tag="self._ezsp")
+                px.emit("mark", f"v{v}")
+                px.call_function(f, me, ["incomingMessageHandler", vals(v, "incomingMessageHandler", ROLES_INCOMING)], {}, None)
+                px.call_function(f, me, ["messageSentHandler", vals(v, "messageSentHandler", ROLES_SENT)], {}, None)
+            return None
+
+        for p in px._run(entry):
+            ctx.paths += 1
+            key = f"reconnect:v{first}->v{second}"
+            bad = None
+            if p.terminal != "return":
+                bad = f"raises {p.value!r}"
+            else:
+                hf = [e for e in p.events if e.kind == "call" and e.what == "self._handle_frame"]
+                hs = [e for e in p.events if e.kind == "call" and e.what == "self._handle_frame_sent"]
+                if len(hf) != 2 or len(hs) != 2:
+                    bad = f"{len(hf)} incoming / {len(hs)} sent callbacks reach their handlers (2 / 2 expected)"
+                for which, evs, params, table in (("_handle_frame", hf, hf_params, PARAMS_INCOMING), ("_handle_frame_sent", hs, hs_params, PARAMS_SENT)):
+                    for i, e in enumerate(evs):
+                        if bad:
+                            break
+                        kw = dict(e.kwargs)
+                        for j, a in enumerate(e.args):
+                            kw[params[j]] = a
+                        for pn, role in table.items():
+                            got = kw.get(pn)
+                            if role == "STATUS":
+                                ok = isinstance(got, Member) and got.cls.name == "sl_Status" and got.value == 0 or got == Sym("role:STATUS")
+                            else:
+                                ok = got == Sym(f"role:{role}")
+                            if not ok:
+                                bad = (f"callback #{i + 1} (version {(first, second)[i]}): {which} parameter `{pn}` receives {got!r}, not the field of role {role} "
+                                       f"in that version's order")
+                                break
+            ctx.require(not bad, key, f"versions {first} then {second} on one application object: {bad}", func=f, trace=p.trace(14))
